@@ -150,6 +150,16 @@ func runC09On(w *world.World, l *world.Lab, c caseHistory, rec *kit.Recorder) er
 			if outClean.Success {
 				rec.Label("probe", "valid probe succeeds with all action pauses removed")
 			}
+			if l == nil {
+				for _, a := range t.Actions {
+					if a.Kind == "swap" {
+						rec.Label("enforcement", "payload names an action without a controller (paused: "+fmt.Sprint(m.Model.PausedActions[kit.ActSwap])+")")
+						if o.Out.Success {
+							return fmt.Errorf("%s: the payload names ACTION_SWAP, for which the application has no controller, but the transfer succeeded", at)
+						}
+					}
+				}
+			}
 			if containsPaused {
 				rec.Label("enforcement", "payload contains a paused action")
 				rec.Sample("probe with a paused action", map[string]any{"paused": fmt.Sprint(m.Model.PausedActions), "probe": t, "ack": string(o.Out.AckBytes)})
@@ -189,8 +199,22 @@ func TestC09History(t *testing.T) {
 	opt := kit.HistOpt{
 		MinSteps: 2, MaxSteps: maxSteps(),
 		PacketW: 55, AdminW: 45, EnvW: 0,
-		Packet: func(rt *rapid.T) kit.Transfer { return genC08Probe(rt, w) },
-		Admin:  kit.AdminOpt{Kinds: []string{"pause_action", "unpause_action"}, ForeignSignerPct: 8, InvalidPct: 12},
+		Packet: func(rt *rapid.T) kit.Transfer {
+			tr := genC08Probe(rt, w)
+			// every action identifier that can be paused can also be written into a payload: the
+			// application registers a controller for the fee action only, so a payload naming
+			// ACTION_SWAP is refused either way - with an error acknowledgement, paused or not
+			switch pick(rt, "swap-in-payload", []string{"no", "no", "no", "no", "no", "alone", "before", "after"}) {
+			case "alone":
+				tr.Actions = []kit.Action{{Kind: "swap"}}
+			case "before":
+				tr.Actions = append([]kit.Action{{Kind: "swap"}}, tr.Actions...)
+			case "after":
+				tr.Actions = append(tr.Actions, kit.Action{Kind: "swap"})
+			}
+			return tr
+		},
+		Admin: kit.AdminOpt{Kinds: []string{"pause_action", "unpause_action"}, ForeignSignerPct: 8, InvalidPct: 12},
 	}
 	rapid.Check(t, func(rt *rapid.T) {
 		c := caseHistory{History: kit.GenHistory(rt, opt)}
@@ -202,6 +226,8 @@ func TestC09History(t *testing.T) {
 	rec.Require("enforcement", "payload contains a paused action", 20)
 	rec.Require("enforcement", "payload without a paused action while one is paused", 20)
 	rec.Require("probe", "valid probe succeeds with all action pauses removed", 50)
+	rec.Require("enforcement", "payload names an action without a controller (paused: true)", 10)
+	rec.Require("enforcement", "payload names an action without a controller (paused: false)", 10)
 }
 
 // TestC09Lab repeats the check in the LAB world, where ACTION_SWAP has a controller too: pausing
